@@ -123,8 +123,25 @@ func VerifC14Flows() {
 	verifAssume(tree.AddFlow(&c14Flow{filter: f}) == nil)
 	rd := &HandlingDataManager{}
 	rd.isStreamsEnabled = true
-	rd.stream = streams.VerifStreamWithFilters(map[publictypes.ComparableFilter][]publictypes.FilterI{
-		f.ToComparable(): {c14Filter{f}}})
+	filters := map[publictypes.ComparableFilter][]publictypes.FilterI{}
+	anyFirst := false
+	withAny := verifParam("anyFlow", 0) == 1 && verifBool("with_any_url_flow")
+	if withAny {
+		// a second flow that accepts every URL, loaded before or after the specific one
+		anyFirst = verifBool("any_url_flow_first")
+	}
+	fAny := &streamconfig.Filter{Name: "any", URL: "*"}
+	if withAny && anyFirst {
+		filters[fAny.ToComparable()] = []publictypes.FilterI{c14Filter{fAny}}
+	}
+	filters[f.ToComparable()] = []publictypes.FilterI{c14Filter{f}}
+	if withAny && !anyFirst {
+		filters[fAny.ToComparable()] = []publictypes.FilterI{c14Filter{fAny}}
+	}
+	if withAny {
+		verifAssume(tree.AddFlow(&c14Flow{filter: fAny}) == nil)
+	}
+	rd.stream = streams.VerifStreamWithFilters(filters)
 	req := rd.buildHAProxyFlowsEndpointsRequest()
 	url, method, trailing := c14Request(pattern)
 	_, selected := tree.GetFlow(&c14Stream{url: url, method: method})
